@@ -135,7 +135,8 @@ pub fn plan(property: &str, tier: &str) -> Option<CheckSpec> {
             let n2 = b.add_gen(&g2, 1, &[false], &rules, 3_000_000);
             rule_text = format!("named multi-threaded scenarios x all schedules up to the preemption bound, plus {n1} generated single-actor and {n2} two-actor lock-step programs x all placements of atomic collector cycles; an execution is non-trivial when a collector drain step falls between the first and the last queue command of the program");
             bound_text = format!("scenarios: preemptions <= {bound}, 2 collector cycles + final flush; generated: <= 3 spans, <= {} local spans, <= {} operations, <= {} cycles", g.max_locals, g.max_len, if quick { 1 } else { 2 });
-            assumptions.push("wall-clock half of the statement (the background thread loops every interval) is abstracted to 'a cycle happens'".into());
+            assumptions.push("wall-clock half of the statement: in the exploration the timer is abstracted to 'a cycle happens' (rule `prompt`); the library's own background thread is additionally observed free-running (report interval 10 ms, no flush(), 20 rounds, each round's spans must arrive within 20 intervals + 0.5 s) - an observation, not an enumeration; it appears under coverage.external_engine".into());
+            external = Some((std::env::current_exe().unwrap().to_string_lossy().to_string(), vec!["freerun".into(), "10".into()]));
         }
         "C03" => {
             let rules = [Rule::Liveness, Rule::NoPanic, Rule::Hold, Rule::NoExtra];
@@ -236,8 +237,29 @@ pub fn plan(property: &str, tier: &str) -> Option<CheckSpec> {
                     b.add("SCHED", scenario(&s, 2).unwrap(), c, Some(bound), &rules, true);
                 }
             }
-            rule_text = "all named scenarios x both configurations x all schedules up to the preemption bound".to_string();
-            bound_text = format!("preemptions <= {bound}; 2 collector cycles + final flush");
+            let mut g = GenCfg::base("C08-seq");
+            g.traces = vec![TraceOpt { trace: 0x8A, sampled: true, remote_parent: 0 }, TraceOpt { trace: 0x8B, sampled: true, remote_parent: 9 }];
+            g.max_spans = 3;
+            g.max_parents = 2;
+            g.allow_scope = true;
+            g.allow_cancel = true;
+            g.finish_while_scoped = true;
+            g.max_depth = 1;
+            g.max_locals = 1;
+            g.max_attach = 1;
+            g.handle_attach = true;
+            g.local_attach = true;
+            g.max_len = if quick { 4 } else { 6 };
+            let n1 = b.add_gen(&g, if quick { 1 } else { 2 }, &[true, false], &rules, 3_000_000);
+            let mut g2 = g.clone();
+            g2.name = "C08-2actors".into();
+            g2.actors = 2;
+            g2.max_switches = 2;
+            g2.max_spans = 2;
+            g2.max_len = if quick { 3 } else { 5 };
+            let n2 = b.add_gen(&g2, 1, &[true, false], &rules, 3_000_000);
+            rule_text = format!("all named scenarios x both configurations x all schedules up to the preemption bound, plus {n1} + {n2} generated histories of trace starts / finishes / cancels / attachments / thread exits x all placements of atomic collector cycles x both configurations");
+            bound_text = format!("scenarios: preemptions <= {bound}, 2 collector cycles + final flush; generated: <= 3 spans, <= {} operations", g.max_len);
         }
         "C02" => {
             let rules = [Rule::Liveness, Rule::NoPanic, Rule::Tree, Rule::NoExtra, Rule::Deliver, Rule::Hold];
